@@ -170,7 +170,7 @@ class PumlParser(DiagramParser):
         modules: set[Module],
         dependencies: dict[str, set[str]],
     ) -> tuple[set[str], dict[str, set[str]]]:
-        unified_dependencies = {}
+        unified_dependencies: dict[str, set[str]] = {}
 
         all_aliases = self._get_modules_by_alias(modules)
 
@@ -180,7 +180,9 @@ class PumlParser(DiagramParser):
                 self._unify_module(dependee, all_aliases) for dependee in dependees
             }
 
-            unified_dependencies[unified_dependor] = unified_dependees
+            unified_dependencies.setdefault(unified_dependor, set()).update(
+                unified_dependees
+            )
 
         unified_modules = self._get_unified_modules(modules, unified_dependencies)
 
